@@ -12,10 +12,21 @@ Input families beyond the call-indexed fault scripts:
   labrea's own CACHE / LOGGING settings), required or with a never-needed default;
 * persistent adversaries: every exists/get/set call of an evaluation misbehaves the same way, and
   payload-loss events (exists True, get failing until the entry is rewritten); the model is asked about
-  the call-indexed adversary the run actually applied."""
+  the call-indexed adversary the run actually applied;
+* the interpreter's environment: part of the scripted histories is run with warnings promoted to errors
+  (`warnings.simplefilter("error")`, what `python -W error` / pytest's filterwarnings=error do): same
+  observation demanded (the model is asked the same question);
+* two threads asking for the same entry at overlapping times (oracle only: the model is sequential): thread A
+  is held at a chosen point of its evaluation (inside a body, or just before one of its backend calls) while
+  thread B evaluates the same dataset with the same options (bounded wait: B finishes, or is found blocked),
+  then A goes on; each thread's backend calls misbehave per its own script.  Both evaluations must return
+  the correct value, executing at most the bodies of a recomputation, and both must return."""
+import contextlib
 import itertools
 import json
+import threading
 import time
+import warnings
 
 import lib
 
@@ -107,12 +118,23 @@ class Script:
         self.poisoned = set()   # (backend, fingerprint): payload lost, index kept, until the entry is rewritten / dropped
         self.budget = None
         self.eval_calls = 0
+        self.per_thread = None   # two-thread steps: thread name -> [script, calls made]; behave beyond
+        self.before_call = None  # two-thread steps: hook(thread name, index of the call about to be made)
+        self.tlog = []           # two-thread steps: (thread, call kind, backend, behaviour)
 
     def next(self, kind, key=None):
         self.eval_calls += 1
         if self.budget is not None and self.eval_calls > self.budget:
             raise Livelock(f"more than {self.budget} backend calls in one evaluation")
-        if self.n < len(self.script):
+        if self.per_thread is not None:
+            name = threading.current_thread().name
+            st = self.per_thread.setdefault(name, ["", 0])
+            if self.before_call is not None:
+                self.before_call(name, st[1])
+            b = st[0][st[1]] if st[1] < len(st[0]) else "B"
+            st[1] += 1
+            self.tlog.append((name, kind, key[0] if key else None, b))
+        elif self.n < len(self.script):
             b = self.script[self.n]
         else:
             b = self.phase["EGS".index(kind)]
@@ -220,6 +242,9 @@ class World:
         from labrea import Option, dataset
         self.shape = shape
         self.style = style
+        self.env = None         # interpreter environment of the evaluations (None | "warnings-error")
+        self.pair_runs = []     # two-thread steps: (thread, dataset, ok) for every body started
+        self.in_body = None     # two-thread steps: hook(thread name, dataset) called when a body starts
         self.script = Script()
         self.runs = []
         self.caches = []    # the scripted stores
@@ -257,6 +282,10 @@ class World:
         def body(**kw):
             vals = tuple(kw.values())
             ok = not any(isinstance(v, int) and v == BAD for v in vals)
+            if self.in_body is not None:
+                name = threading.current_thread().name
+                self.pair_runs.append((name, i, ok))
+                self.in_body(name, i)
             runs.append((i, ok))
             if not ok:
                 raise BodyErr(i)
@@ -278,13 +307,14 @@ class World:
         self.script.eval_calls = 0
         self.script.budget = call_budget(self.shape, d)
         try:
-            if dis == "runtime":
-                with disabled():
+            with environment(self.env):
+                if dis == "runtime":
+                    with disabled():
+                        v = self.ds[d](po)
+                elif dis == "option":
+                    v = self.ds[d](build_options(opts, cache_disabled=True))
+                else:
                     v = self.ds[d](po)
-            elif dis == "option":
-                v = self.ds[d](build_options(opts, cache_disabled=True))
-            else:
-                v = self.ds[d](po)
             res = "ok:" + show_val(v)
         except Livelock:
             res = "hang"
@@ -299,6 +329,20 @@ class World:
             if i not in fps:
                 fps[i] = show_fp(self.ds[i].fingerprint(po))
         return res, calls, [(i, ok, fps[i]) for i, ok in runs]
+
+
+@contextlib.contextmanager
+def environment(env):
+    """The interpreter environment an evaluation runs in.  "warnings-error": every warning is an exception
+    (python -W error, PYTHONWARNINGS=error, pytest filterwarnings=error)."""
+    if env is None:
+        yield
+    elif env == "warnings-error":
+        with warnings.catch_warnings():
+            warnings.simplefilter("error")
+            yield
+    else:
+        raise ValueError(env)
 
 
 def classify(e):
@@ -477,6 +521,8 @@ def is_subsequence(a, b):
 def scenario_fields(w, extra):
     """What a replay needs besides (graph, script, history)."""
     out = {"style": w.style}
+    if extra and extra.get("env"):
+        out["env"] = extra["env"]
     if extra and extra.get("phases"):
         out["phases"] = list(extra["phases"])
     if extra and extra.get("poison"):
@@ -491,6 +537,7 @@ def run_scenario(w, gname, script, hist, ref, viol, stats, extra=None):
             "poison": indices of evaluations before which every stored entry loses its payload but stays listed
                       (exists -> True, get -> CacheGetFailure) until it is rewritten or dropped}."""
     w.reset(script)
+    w.env = (extra or {}).get("env")
     phases = (extra or {}).get("phases")
     poison = set((extra or {}).get("poison") or ())
     fields = scenario_fields(w, extra)
@@ -558,6 +605,191 @@ def run_scenario(w, gname, script, hist, ref, viol, stats, extra=None):
     for b, k in w.script.used:
         stats["faults_consumed"][b + "@" + k] = stats["faults_consumed"].get(b + "@" + k, 0) + 1
     return "/".join(lines), len(w.script.used), "".join(w.script.applied)
+
+
+# ----------------------------------------------------------------------------- two threads, one entry
+
+PAIR_WAIT = 0.06     # bounded wait for thread B while A is held: B finishes (it does, at once, on the code as it is) or is blocked
+PAIR_JOIN = 20.0     # bounded wait for either thread to return at all
+
+
+def run_pair_scenario(w, gname, pair, ref, viol, stats):
+    """pair = {"pre": history run first (one thread, truthful backend), "d", "opts": the entry both threads ask for,
+               "hold": ["body", i] (A is held when it starts the body of dataset i) | ["call", k] (A is held just
+                       before its k-th backend call) | None (no overlap: A, then B),
+               "scripts": {"A": .., "B": ..} behaviour of the k-th backend call OF THAT THREAD, "post": history run
+               afterwards (one thread, truthful backend), "env": interpreter environment}.
+    Hand-off: A runs until it is held; B then runs the same evaluation for at most PAIR_WAIT seconds (it returns, or
+    it is found waiting for A); A is released; both are joined (bounded).  Returns the observation line."""
+    w.reset("")
+    w.env = pair.get("env")
+    d, opts = pair["d"], [tuple(kv) for kv in pair["opts"]]
+    fields = dict(style=w.style, pair={k: v for k, v in pair.items()})
+    lines = []
+
+    def check(idx, who, res, got_runs, dd, oo, calls=None):
+        want, want_runs, _ = ref.get(gname, w.shape, dd, oo, viol)
+        stats["evaluations"] += 1
+        bad = None
+        if res == "hang":
+            bad = "evaluation did not return (thread still waiting after the other thread's evaluation had returned, or backend call budget exceeded)"
+        elif res != want:
+            if res.startswith("exc:"):
+                bad = f"evaluation raised {res[4:]} although the cache-free computation " + (
+                    "returns a value" if want.startswith("ok:") else "raises the body's own error")
+            elif res.startswith("ok:") and want.startswith("ok:"):
+                bad = "evaluation returned a value different from the correct (cache-free) value for its options"
+            elif res.startswith("ok:"):
+                bad = "evaluation returned a value although a body raises for these options (cache-free: the body's error)"
+            else:
+                bad = "evaluation failed although the cache-free computation does not fail that way"
+        elif not is_subsequence(got_runs, want_runs):
+            bad = "bodies executed are not a subsequence of the cache-free evaluation's (more than recomputation)"
+        if bad:
+            viol.append(dict(desc=bad + (f" [thread {who} of two threads asking for the same entry]" if who else ""),
+                             graph=gname, shape=w.shape, script="", history=hist_json([(False, d, opts)]), **fields,
+                             evaluation_index=idx, got=res, want=want, got_runs=got_runs, want_runs=want_runs,
+                             backend_calls=[list(c) for c in (calls if calls is not None else w.script.tlog)][:40]))
+
+    idx = 0
+    for (dis, dd, oo) in hist_from_json(pair.get("pre") or []):
+        res, calls, runs = w.evaluate(dis, dd, oo)
+        lines.append(show_eval(res, calls, runs))
+        check(idx, None, res, [(i, ok) for i, ok, _ in runs], dd, oo, calls)
+        idx += 1
+
+    # ---- the overlapped step
+    hold = pair.get("hold")
+    held, release = threading.Event(), threading.Event()
+    state = {"held_once": False}
+
+    def maybe_hold(name, at):
+        if name == "A" and hold is not None and not state["held_once"] and list(at) == list(hold):
+            state["held_once"] = True
+            held.set()
+            release.wait(PAIR_JOIN)
+    w.in_body = lambda name, i: maybe_hold(name, ("body", i))
+    w.script.before_call = lambda name, k: maybe_hold(name, ("call", k))
+    w.script.per_thread = {n: [pair["scripts"].get(n, ""), 0] for n in ("A", "B")}
+    del w.pair_runs[:]
+    del w.script.tlog[:]
+    w.script.eval_calls = 0
+    w.script.budget = 2 * call_budget(w.shape, d)
+    po = {n: build_options(opts) for n in ("A", "B")}
+    box, done = {}, {n: threading.Event() for n in ("A", "B")}
+
+    def worker(name):
+        try:
+            v = w.ds[d](po[name])       # (the warning filter is process-wide: it is set around the whole step below)
+            box[name] = "ok:" + show_val(v)
+        except Livelock:
+            box[name] = "hang"
+        except BaseException as e:  # noqa: BLE001
+            box[name] = classify(e)
+        finally:
+            done[name].set()
+    ta = threading.Thread(target=worker, args=("A",), name="A", daemon=True)
+    tb = threading.Thread(target=worker, args=("B",), name="B", daemon=True)
+    with environment(w.env):
+        ta.start()
+        while not (held.is_set() or done["A"].is_set()):
+            held.wait(0.002)
+            if not ta.is_alive():
+                break
+        tb.start()
+        blocked = not done["B"].wait(PAIR_WAIT if held.is_set() and not done["A"].is_set() else PAIR_JOIN)
+        release.set()
+        done["A"].wait(PAIR_JOIN)
+        done["B"].wait(PAIR_JOIN)
+    stats["pair_steps"] = stats.get("pair_steps", 0) + 1
+    stats["pair_steps_overlapped"] = stats.get("pair_steps_overlapped", 0) + (1 if state["held_once"] else 0)
+    stats["pair_steps_b_waited_for_a"] = stats.get("pair_steps_b_waited_for_a", 0) + (1 if blocked else 0)
+    for b, _k in [(t[3], t[1]) for t in w.script.tlog if t[3] != "B"]:
+        stats["faults_consumed"][b + "@pair"] = stats["faults_consumed"].get(b + "@pair", 0) + 1
+    w.in_body = None
+    w.script.before_call = None
+    w.script.budget = None
+    for name in ("A", "B"):
+        res = box.get(name, "hang")
+        runs = [(i, ok) for n, i, ok in w.pair_runs if n == name]
+        cs = ",".join(f"{k}{c}{b}" for n, k, c, b in w.script.tlog if n == name)
+        lines.append(f"{name}:{res};{cs};" + ",".join(f"{i}{'+' if ok else '-'}" for i, ok in runs))
+        check(idx, name, res, runs, d, opts)
+    idx += 1
+    alive = ta.is_alive() or tb.is_alive()
+    w.script.per_thread = None
+    if not alive:
+        for (dis, dd, oo) in hist_from_json(pair.get("post") or []):
+            res, calls, runs = w.evaluate(dis, dd, oo)
+            lines.append(show_eval(res, calls, runs))
+            check(idx, None, res, [(i, ok) for i, ok, _ in runs], dd, oo, calls)
+            idx += 1
+    n_faults = sum(1 for t in w.script.tlog if t[3] != "B")
+    return "/".join(lines), n_faults, alive
+
+
+def unfolded(shape, d):
+    """datasets whose bodies the cache-free evaluation of d executes"""
+    out = {d}
+    for a in shape[d]:
+        if a[0] == "d":
+            out |= unfolded(shape, a[1])
+    return out
+
+
+def pair_scenarios(ctx, graphs):
+    """Yield (graph name, pair) - see run_pair_scenario."""
+    rng = ctx.rng
+    quick = ctx.quick
+    base = {"single": [(1, 1), (2, 2)], "chain": [(1, 1), (2, 2)], "diamond": [(1, 1), (2, 2)], "pair": [(1, 1)]}
+    top = {g: len(GRAPHS[g]) - 1 for g in base}
+    # (1) exhaustive: every behaviour of B's first n backend calls, A truthful, A held in the top body
+    n = 4 if quick else 5
+    for g in (("single", "chain") if quick else ("single", "chain", "diamond")):
+        for sb in itertools.product(KINDS, repeat=n):
+            yield g, dict(pre=[], d=top[g], opts=base[g], hold=["body", top[g]], scripts={"A": "", "B": "".join(sb)}, post=[])
+    # (2) exhaustive: every behaviour of the first 3 calls of BOTH threads on the one-dataset graph, each hold point
+    for hold in (["body", 0], ["call", 1], ["call", 2], None):
+        for sa in itertools.product(KINDS, repeat=2 if quick else 3):
+            for sb in itertools.product(KINDS, repeat=3):
+                yield "single", dict(pre=[], d=0, opts=base["single"], hold=hold, scripts={"A": "".join(sa), "B": "".join(sb)},
+                                     post=[[False, 0, [list(kv) for kv in base["single"]]]])
+    # (3) random: graphs, entries, hold points (a body of the unfolded evaluation / a backend call), warm or cold, scripts,
+    #     some under warnings-as-errors, a raising body now and then
+    names = list(GRAPHS)
+    for _ in range(500 if quick else 6000):
+        g = rng.choice(names)
+        shape = graphs[g]
+        hist = gen_history(shape, rng, lo=1, hi=3, p_dis=0.0, p_bad=0.25)
+        _dis, d, opts = hist[-1]
+        pre = hist[:-1] if rng.random() < 0.5 else []
+        r = rng.random()
+        if r < 0.6:
+            hold = ["body", rng.choice(sorted(unfolded(shape, d)))]
+        elif r < 0.9:
+            hold = ["call", rng.randrange(0, 3 * tree_size(shape, d))]
+        else:
+            hold = None
+        dens = rng.choice([0.0, 0.3, 0.6, 1.0])
+
+        def scr():
+            return "".join(rng.choice("MLF") if rng.random() < dens else "B" for _ in range(rng.randint(0, 10)))
+        post = [(False, d, opts)] if rng.random() < 0.5 else []
+        yield g, dict(pre=hist_json(pre), d=d, opts=[list(kv) for kv in opts], hold=hold, scripts={"A": scr(), "B": scr()},
+                      post=hist_json(post), env="warnings-error" if rng.random() < 0.25 else None)
+
+
+def work_pairs(chunk):
+    worlds, ref, viol, stats, out = {}, Reference(), [], new_stats(), []
+    for gname, shape, pair, style in chunk:
+        wk = (gname, style)
+        if wk not in worlds:
+            worlds[wk] = World(shape, style=style)
+        line, n_faults, alive = run_pair_scenario(worlds[wk], gname, pair, ref, viol, stats)
+        if alive:       # a thread is still stuck inside this world: never reuse it
+            del worlds[wk]
+        out.append((line, n_faults))
+    return out, viol, stats
 
 
 def hist_json(h):
@@ -692,7 +924,8 @@ def coq_eval_fallback(ctx, name, prelude, exprs):
 
 def new_stats():
     return {"evaluations": 0, "failing_evaluations": 0, "disabled_evaluations": 0,
-            "served_from_cache": 0, "truthful_scenarios_each_body_once": 0, "faults_consumed": {}}
+            "served_from_cache": 0, "truthful_scenarios_each_body_once": 0, "faults_consumed": {},
+            "pair_steps": 0, "pair_steps_overlapped": 0, "pair_steps_b_waited_for_a": 0}
 
 
 def work(chunk):
@@ -730,17 +963,40 @@ def run(ctx):
         todo.append((g, s, hist, label + "+delegating", {"style": STYLES[1 + k % (len(STYLES) - 1)]}))
     for g, s, hist, label, extra in more_scenarios(ctx, graphs):
         todo.append((g, s, hist, label, dict(extra, style=rng.choice(STYLES))))
+    # part of the scenarios above once more in an interpreter whose warnings are errors (same observation demanded)
+    quota = {"exhaustive-6": 4096, "random": 600, "persistent-exhaustive": 1300, "labrea-section-exhaustive-4": 256,
+             "window-4": 256, "random-dag": 120, "persistent-random": 300, "labrea-section-random": 150}
+    if not ctx.quick:
+        quota = {k: 10 * v for k, v in quota.items()}
+        quota.update({"exhaustive-7": 20000, "window-5": 5000, "labrea-section-exhaustive-6": 4096})
+    for k in range(len(todo)):
+        g, s, hist, label, extra = todo[k]
+        if quota.get(label, 0) > 0 and (label != "exhaustive-6" or g == "single"):
+            quota[label] -= 1
+            todo.append((g, s, hist, label + "+warnings-error", dict(extra, env="warnings-error")))
     for _, _, _, label, _ in todo:
         streams[label] = streams.get(label, 0) + 1
+    # two threads asking for the same entry (oracle only)
+    pairs = [(g, graphs[g], pair, STYLES[k % len(STYLES)] if k % 3 == 0 else "direct")
+             for k, (g, pair) in enumerate(pair_scenarios(ctx, graphs))]
+    streams["two-threads-one-entry"] = len(pairs)
 
     # --- implementation side (worker processes; results concatenated in generation order)
     t0 = time.time()
     jobs = 12
     size = max(50, (len(todo) + 4 * jobs - 1) // (4 * jobs))
     chunks = [[(g, graphs[g], s, h, x) for g, s, h, _, x in todo[k:k + size]] for k in range(0, len(todo), size)]
+    psize = max(50, (len(pairs) + 2 * jobs - 1) // (2 * jobs))
+    pchunks = [pairs[k:k + psize] for k in range(0, len(pairs), psize)]
     with multiprocessing.get_context("fork").Pool(jobs) as pool:
+        presults_async = pool.map_async(work_pairs, pchunks)
         results = pool.map(work, chunks)
+        presults = presults_async.get()
     viol, stats, refs, lines, used, applied = [], new_stats(), {}, [], [], []
+    pair_lines = []
+    for out, v, st in presults:
+        pair_lines += out
+        results.append(([], v, st, {}))
     for out, v, st, rf in results:
         lines += [o[0] for o in out]
         used += [o[1] for o in out]
@@ -762,6 +1018,11 @@ def run(ctx):
         hh = lib.stable_hash([graphs[g], s, hist_json(h), sorted(x.items())])
         distinct.add(hh)
         if u:
+            nontrivial.add(hh)
+    for (g, shape, pair, style), (_line, n_faults) in zip(pairs, pair_lines):
+        hh = lib.stable_hash([shape, pair, style])
+        distinct.add(hh)
+        if n_faults:
             nontrivial.add(hh)
     lib.log(f"[C17] implementation side: {len(cases)} scenarios, {stats['evaluations']} evaluations in {time.time() - t0:.1f}s")
     t0 = time.time()
@@ -822,12 +1083,18 @@ def run(ctx):
     seen, uniq = set(), []
     for v in viol:
         hh = lib.stable_hash([v["desc"], v["shape"], v["script"], v["history"], v["evaluation_index"],
-                              v.get("style"), v.get("phases"), v.get("poison")])
+                              v.get("style"), v.get("phases"), v.get("poison"), v.get("env"), v.get("pair")])
         if hh not in seen:
             seen.add(hh)
             uniq.append(v)
     viol = uniq
-    viol.sort(key=lambda v: (len(v["script"].rstrip("B")) + 3 * len(v.get("phases") or ()), len(v["history"]), v["evaluation_index"]))
+    def pair_weight(v):
+        pr = v.get("pair")
+        if not pr:
+            return 0
+        return 2 + sum(len(x.rstrip("B")) for x in pr["scripts"].values()) + len(pr.get("pre") or ()) + len(pr.get("post") or ())
+    viol.sort(key=lambda v: (len(v["script"].rstrip("B")) + 3 * len(v.get("phases") or ()) + pair_weight(v) + (1 if v.get("env") else 0),
+                             len(v["history"]), v["evaluation_index"]))
     violations = [dict(v, finding=None) for v in viol[:50]]
     step = max(1, len(cases) // 4)
     samples = [dict(graph=c[0], shape=graphs[c[0]], script=c[4], history=hist_json(c[2]), observation=c[3],
@@ -895,17 +1162,24 @@ def replay(ctx, payload):
     hist = hist_from_json(v["history"])
     script = v["script"]
     gname = v.get("graph", "replayed")
-    extra = {"style": v.get("style", "direct"), "phases": v.get("phases"), "poison": v.get("poison")}
+    extra = {"style": v.get("style", "direct"), "phases": v.get("phases"), "poison": v.get("poison"), "env": v.get("env")}
     w = World(shape, style=extra["style"])
     ref = Reference()
     viol = []
     stats = new_stats()
+    if v.get("pair"):       # two threads, one entry: the property's oracle only (the model is sequential)
+        line, _, alive = run_pair_scenario(w, gname, v["pair"], ref, viol, stats)
+        return bool(viol), {"graph": gname, "shape": v["shape"], "backend_style": extra["style"], "two_threads": v["pair"],
+                            "impl": line.split("/"), "model": "not modelled (Model/CacheFault.v is sequential)",
+                            "a_thread_never_returned": alive,
+                            "oracle_violations": [dict(desc=x["desc"], evaluation_index=x["evaluation_index"], got=x["got"], want=x["want"])
+                                                  for x in viol[:3]]}
     line, _, applied = run_scenario(w, gname, script, hist, ref, viol, stats, extra)
     mscript = applied if (extra["phases"] or extra["poison"]) else script
     ml = ctx.coq_eval("Replay_C17", ["Model.CacheFault", "Model.CacheFaultRun"], "",
                       [f"observe {coq_shape(shape)} {coq_script(mscript)} {coq_hist(hist)}"])[0]
     detail = {"graph": gname, "shape": v["shape"], "script": script, "history": v["history"],
-              "backend_style": extra["style"], "phases": extra["phases"], "poison": extra["poison"],
+              "backend_style": extra["style"], "phases": extra["phases"], "poison": extra["poison"], "environment": extra["env"],
               "impl": line.split("/"), "model": ml.split("/"),
               "oracle_violations": [dict(desc=x["desc"], evaluation_index=x["evaluation_index"], got=x["got"], want=x["want"])
                                     for x in viol[:3]]}
